@@ -34,7 +34,7 @@ CHECKS["C01"] = dict(
     technique="explicit-state BFS to fixpoint over pool changes and selections on the real RoundRobin + stateless DFS over all interleavings of concurrent selectors",
     text="Every reachable (pool order, weights, iterator) state of the real balancer over 3-4 servers and the weight alphabet is visited; from each, the next W selections must hit server i exactly w_i/g times (so every window offset after every history of pool changes). Concurrent part: all interleavings of 2-4 selector threads; the combined completion-order sequence must satisfy the same counts.",
     note="weights limited to the alphabet plus a list of very unequal fixed pools (A4); sequential consistency between scheduling points (A3)",
-    parts=[dict(bin="vh", part="c01", shards=16, budget=dict(quick=100, thorough=1500)),
+    parts=[dict(bin="vh", part="c01", shards=16, gang=True, budget=dict(quick=100, thorough=1500)),
            dict(bin="vsched-race", part="c01s", shards=16, budget=dict(quick=100, thorough=1500))])
 
 CHECKS["C02"] = dict(
@@ -50,13 +50,13 @@ CHECKS["C03"] = dict(
     technique="explicit-state BFS to fixpoint (relative-time state keys) plus exact-key depth-bounded BFS on the real TokenLimiter vs an exact-rational leaky-bucket debt monitor",
     text="For each rate set (integral and non-integral time per token, burst up to 5x average, 2s period, multi-rate) and clock phase, every history of Req(amount)/Advance(d) over the alphabet is explored on the real limiter to a fixpoint of the relative-time state space (histories of unbounded length, incl. traffic sustained beyond the entry lifetime); the monitor debt D<=burst+1 is equivalent to the interval bound.",
     note="frozen clock, one instant per call (A2); translation invariance assumed for the relative keys and cross-checked by the exact-key search; one source (multi-source behaviour is C14)",
-    parts=[dict(bin="vh", part="c03", shards=dict(quick=12, thorough=21), budget=dict(quick=100, thorough=1500))])
+    parts=[dict(bin="vh", part="c03", shards=16, gang=True, budget=dict(quick=100, thorough=1500))])
 CHECKS["C13"] = dict(
     level="model_checking", engine="xstate", design_ref="DESIGN.md §5 C13",
     technique="same reachable-state graph as C03; differential continuation probes (real code against itself) from every reachable state",
     text="From every reachable limiter state and every rejected request q: probe outcomes after q (once and three times) equal those without q for every amount (nothing debited, also multi-rate); retry after exactly X-Retry-In is admitted; an idle source regains its burst after burst*(period/average); an over-burst request is refused with an error and no delay.",
     note="as C03",
-    parts=[dict(bin="vh", part="c03", shards=dict(quick=12, thorough=21), budget=dict(quick=100, thorough=1500))])
+    parts=[dict(bin="vh", part="c03", shards=16, gang=True, budget=dict(quick=100, thorough=1500))])
 
 CHECKS["C14"] = dict(
     level="model_checking", engine="xstate+sched", design_ref="DESIGN.md §5 C14",
